@@ -61,7 +61,7 @@ func (H) Describe(sc any) string {
 }
 
 var listKinds = []string{"pushfront", "pushback", "pushback", "insertbefore", "insertafter", "remove", "remove", "movetofront", "movetoback", "movebefore", "moveafter", "pushbacklist", "pushfrontlist", "init"}
-var ringKinds = []string{"next", "prev", "move", "move", "link", "link", "link", "unlink", "unlink", "len", "do", "domut"}
+var ringKinds = []string{"next", "prev", "move", "move", "link", "link", "link", "linknil", "unlink", "unlink", "len", "do", "domut"}
 
 // Generate implements core.Harness.
 func (H) Generate(r *simrt.Rand, tier string) any {
@@ -396,6 +396,8 @@ func runRings(sc *Scenario) (*core.Violation, uint64) {
 			fo, fs = func() { ro = a.o.Move(op.N) }, func() { rs = a.s.Move(op.N) }
 		case "link":
 			fo, fs = func() { ro = a.o.Link(b.o) }, func() { rs = a.s.Link(b.s) }
+		case "linknil":
+			fo, fs = func() { ro = a.o.Link(nil) }, func() { rs = a.s.Link(nil) }
 		case "unlink":
 			fo, fs = func() { ro = a.o.Unlink(op.N) }, func() { rs = a.s.Unlink(op.N) }
 		case "len":
